@@ -180,4 +180,4 @@ CLAUSES.append(
 
 # coverage-guided second driver (atheris / libFuzzer through Hypothesis' fuzz_one_input) for the core clauses: (clause, quick runs, thorough runs)
 from harness.covfuzz import cov_clauses  # noqa: E402
-CLAUSES += cov_clauses('C09', CLAUSES, [('accepts', 1500, 30000)])
+CLAUSES += cov_clauses('C09', CLAUSES, [('accepts', 1500, 10000)])
